@@ -120,7 +120,8 @@ class World:
     def __init__(self):
         self.reset()
 
-    def reset(self, pid=7, state="alive", site=None, err=None, records=None, notty=False, faults=None, rowalt=None):
+    def reset(self, pid=7, state="alive", site=None, err=None, records=None, notty=False, faults=None, rowalt=None,
+              rowset=None):
         """faults: {site: [(count or None, err or None), ...]} -- the first `count` invocations of that native call
         end with err (None = succeed), then the next segment applies; count None = all remaining invocations.
         site/err = the single-fault shorthand {site: [(None, err)]}."""
@@ -130,6 +131,7 @@ class World:
             self.faults[site] = [(None, err)]
         self.ncalls = {}
         self.rowalt = dict(rowalt or {})
+        self.rowset = dict(rowset or {})      # {fn: {slot: value}} explicit values in a row-native's row
         self.records = records or {}
         self.notty = notty
         self.fired = 0
@@ -225,7 +227,7 @@ class Layer:
             names = [fname]
             if fname == "proc_cmdline" and self.plat == "windows":
                 names.insert(0, "proc_cmdline[peb]" if kw.get("use_peb") else "proc_cmdline[nopeb]")
-            err = w.fault_for(names)
+            err = w.fault_for(names + ["*"])
             if err is not None:
                 w.fired += 1
                 e = make_error(self.plat, err)
@@ -275,6 +277,8 @@ class Layer:
         i = self.world.rowalt.get(fname)
         if i is not None:
             base[i] = alt[i]
+        for j, v in self.world.rowset.get(fname, {}).items():
+            base[int(j)] = v
         return base
 
     def _environ(self):
@@ -526,10 +530,10 @@ class Layer:
                 "ionice_set": (2, 0), "send_signal": (signal.SIGTERM,), "wait": (0,)}.get(meth, ())
 
     def run(self, meth, pid=7, state="alive", site=None, err=None, records=None, notty=False, args=None, faults=None,
-            rowalt=None):
+            rowalt=None, rowset=None):
         """Returns (kind, payload): ('val', value) | ('exc', exception object); world holds calls/fired."""
         mod = self.mod
-        self.world.reset(pid, state, site, err, records, notty, faults, rowalt)
+        self.world.reset(pid, state, site, err, records, notty, faults, rowalt, rowset)
         if hasattr(mod, "_pid_0_exists"):
             mod._pid_0_exists.cache_clear()
         if hasattr(mod, "convert_dos_path"):
@@ -544,7 +548,10 @@ class Layer:
         proc._ppid = 1
         a = self.args_for(real) if args is None else args
         try:
-            r = getattr(proc, real)(*a)
+            if real.startswith("sys:"):            # module-level (system-wide) function of the platform module
+                r = getattr(mod, real[4:])(*(a or ("inet",)))
+            else:
+                r = getattr(proc, real)(*a)
             if isinstance(r, types.GeneratorType):
                 r = list(r)
             return "val", r
